@@ -244,7 +244,7 @@ class Run:
         Returns the list of indices on which model and implementation differ."""
         if not cases:
             return []
-        tag = '%s_%s_%d_%d' % (self.pid, family, os.getpid(), self.seed)
+        tag = '%s_%s_%d_%d' % (self.pid, re.sub(r'\W', '_', family), os.getpid(), self.seed)
         shards = [cases[i:i + shard] for i in range(0, len(cases), shard)]
         def one(k):
             body = ';\n'.join('(%s, %s)' % (c[0], val_lit(c[1])) for c in shards[k])
